@@ -609,7 +609,8 @@ impl ExecutableContent for SendParameters {
             return false;
         }
 
-        let target_guard = target.lock().unwrap();
+        // A copy: 'targetexpr' and 'typeexpr' may evaluate to the same value, whose lock must not be held twice.
+        let target_guard = target.lock().unwrap().clone();
         if delay_ms > 0 && target_guard.to_string().eq(SCXML_TARGET_INTERNAL) {
             // Can't send via internal queue
             error!("Send: illegal delay for target {}", target_guard);
